@@ -319,7 +319,12 @@ let () =
                                (if fn.w.w_cache_if && not cifb then "predicate false" else "Err"))
                 | _ -> ());
              if exec > 0 && unexpired_before && not fn.w.w_inval_on then
-               fail what (Printf.sprintf "f%d x=%d: the body ran although an unexpired entry for these arguments was stored" f x)
+               fail what (Printf.sprintf "f%d x=%d: the body ran although an unexpired entry for these arguments was stored" f x);
+             (* a call whose result is NOT to be cached leaves the entry stored for its key alone (a stale entry whose
+                refresh failed or was rejected stays, and is served again once the check accepts it) *)
+             if exec > 0 && (not decision) && unexpired_before && stored_after = None then
+               fail what (Printf.sprintf "f%d x=%d: a call whose result is not cached (%s) removed the unexpired entry stored for its key" f x
+                            (if fn.w.w_cache_if && not cifb then "predicate false" else "Err"))
            end;
            if has "limit" then begin
              (match cfgc.limit with
@@ -605,6 +610,14 @@ let () =
                    (Option.value (field "inv") ~default:"?") (Option.value (field "cif") ~default:"?") in
                if field "panic" = None && exp <> got then
                  set_verdict (Printf.sprintf "MISMATCH %d callB f%d x=%d model={%s} impl={%s}" !evidx f x exp got);
+               (* C10: a resumed call has executed its body, so cache_if is consulted exactly once, with this call's
+                  key and result, whatever other calls stored for the key while it was suspended *)
+               if has "cif" && fn.w.w_cache_if && field "panic" = None then begin
+                 let want = Printf.sprintf "%d:%d" x (int_of_n (enc ci.ci_body)) in
+                 let gotc = Option.value (field "cif") ~default:"?" in
+                 if gotc <> want then
+                   fail "cif" (Printf.sprintf "f%d x=%d: the resumed call ran its body; cache_if consultations %s, expected %s" f x gotc want)
+               end;
                if has "c20" && field "panic" = None then
                  (match List.find_opt (fun wi -> wi.wf = f && wi.wtid = -1) instances with
                   | Some wi -> (match List.assoc_opt x wi.wstore with
@@ -641,6 +654,11 @@ let () =
                     if List.sort compare wi.wq <> List.sort compare (List.map fst wi.wstore) then
                       fail "c20" (Printf.sprintf "f%d: after the resumed call the order queue [%s] and the stored keys disagree" f
                                     (String.concat "," (List.map string_of_int wi.wq)));
+                    (* a resumed call whose result is not to be cached leaves alone whatever is stored for its key now
+                       (another call may have stored a fresh value during the suspension) *)
+                    if (not (impl_store_decision fn okb ci.ci_cif)) && List.mem_assoc x p.wstore && not (List.mem_assoc x wi.wstore) then
+                      fail "c20" (Printf.sprintf "f%d x=%d: the resumed call's result is not cached (%s), yet the entry stored for its key meanwhile is gone"
+                                    f x (if okb then "predicate false" else "Err"));
                     if impl_store_decision fn okb ci.ci_cif && (not fits) && List.mem_assoc x wi.wstore then
                       fail "c20" (Printf.sprintf "f%d x=%d: the resumed call's result is too large to be cached, yet an entry for its key is still stored" f x)
                   | _ -> ())
@@ -721,6 +739,12 @@ let () =
        | "invcn", name :: _ ->
          let (w', b) = invalidate_cache (n_of_int (intern name)) !world in
          set_world w';
+         (* caches that do not carry this NAME keep every entry (the identifier of a function whose cache has
+            another name is not a cache name) *)
+         if has "frame" || has "tags" then begin
+           let touched = List.filter_map (fun wi -> if wi.wtid = -1 && fns.(wi.wf).name = name then Some (wi.wf, wi.wtid) else None) instances in
+           check_frame (if has "frame" then "frame" else "tags") touched instances
+         end;
          if rl <> ["bool"; (if b then "1" else "0")] then
            set_verdict (Printf.sprintf "MISMATCH %d invcn %s model=%b impl=%s" !evidx name b !got_r)
        | "invw", f :: xs :: _ ->
@@ -762,6 +786,10 @@ let () =
        | "invwn", name :: _ ->
          let (w', b) = invalidate_with (n_of_int (intern name)) [] !world in
          set_world w';
+         if has "frame" || has "tags" then begin
+           let touched = List.filter_map (fun wi -> if wi.wtid = -1 && fns.(wi.wf).name = name then Some (wi.wf, wi.wtid) else None) instances in
+           check_frame (if has "frame" then "frame" else "tags") touched instances
+         end;
          if rl <> ["bool"; (if b then "1" else "0")] then
            set_verdict (Printf.sprintf "MISMATCH %d invwn %s model=%b impl=%s" !evidx name b !got_r)
        | "invall", sel :: _ ->
